@@ -302,6 +302,18 @@ Theorem C19_rhat_lower_bound : forall chains : list (list Z),
 Proof. exact rhat_sq_lower_bound. Qed.
 Print Assumptions C19_rhat_lower_bound.
 
+(* rank normalisation (arviz's default R-hat): the integer-chain formula is the rational-chain formula applied after
+   injection (the rank-normalised value is that formula on the z-scores), and the argument handed to the normal quantile
+   function for every pooled draw, u = (average rank - 3/8)/(N + 1/4), lies strictly between 0 and 1 *)
+Theorem C19_rhat_sq_as_q : forall chains : list (list Z), rhat_sq_q (map zq chains) == rhat_sq chains.
+Proof. exact rhat_sq_as_q. Qed.
+Print Assumptions C19_rhat_sq_as_q.
+
+Theorem C19_rank_argument_in_unit_interval : forall (pool : list Q) (x : Q),
+  In x pool -> 0 < blom pool x /\ blom pool x < 1.
+Proof. exact blom_in_unit_interval. Qed.
+Print Assumptions C19_rank_argument_in_unit_interval.
+
 (* the split value (and with it arviz's default) depends on the ORDER of the draws: permuting a chain changes it *)
 Theorem C19_rhat_split_draw_order_refuted :
   exists chains chains', Forall2 (@Permutation Z) chains chains' /\
